@@ -164,10 +164,10 @@ var foreignFaults = []struct{ name, content string }{
 	{"f.textpb", "apps { this is not textpb"},             // bad textpb
 	{"f.pb.json", "{\"apps\": 17}"},                       // bad pb json
 	{"f.pb.json", "{\"swagger\": \"2.0\", \"info\": {\"title\": \"T\", \"version\": \"1\"}, \"paths\": {}}"}, // well-formed JSON of another schema under the compiled-model extension
-	{"f.textpb", "swagger: \"2.0\"\ninfo { title: \"T\" }\n"},                                                              // well-formed text-proto of another message
-	{"f.pb.json", "{\"applications\": {\"A\": {}}}"},                                                                          // near miss of the real field name
-	{"f.proto", "message {{{"},                            // bad proto
-	{"f.xml", "<a>"},                                      // unknown extension
+	{"f.textpb", "swagger: \"2.0\"\ninfo { title: \"T\" }\n"},                                                // well-formed text-proto of another message
+	{"f.pb.json", "{\"applications\": {\"A\": {}}}"},                                                         // near miss of the real field name
+	{"f.proto", "message {{{"}, // bad proto
+	{"f.xml", "<a>"},           // unknown extension
 }
 
 func (c06) Run(c core.Case) core.Outcome {
